@@ -32,6 +32,8 @@ def cases(ctx, budget):
     n = (2500 if ctx.quick else 100000) * budget
     env = jp.JSONPathEnvironment()
     reg = gen.enc_registry(gen.BUILTINS)
+    rx = []
+    renv = harness.make_env(record_rx=rx)      # only to observe what match()/search() answered: the model takes the regex results as a table
 
     def run(fn):
         try:
@@ -113,7 +115,10 @@ def cases(ctx, budget):
             out = [0, len(ref[1])]
             for loc, val in ref[1]: out += wire.enc_list(wire.enc_key, list(loc)) + val
         kind = "invalid" if ref[0] == "err" else "valid"
-        yield Case({"text": text, "value": v}, [4, 100] + reg + [0] + wire.enc_str(text) + wire.enc_json(v), out, None, None,
+        del rx[:]
+        try: renv.find(text, v)
+        except Exception: pass
+        yield Case({"text": text, "value": v}, [4, 100] + reg + gen.enc_rxtable(list(dict.fromkeys(rx))) + wire.enc_str(text) + wire.enc_json(v), out, None, None,
                    ref[0] == "err" or bool(ref[1]), kind)
         if problems:
             yield Case({"text": text, "value": v, "problems": problems[:4]}, None, [9], [118, 0], None, True, kind, True, lambda a, b, p=problems: "; ".join(p[:3]))
